@@ -370,9 +370,9 @@ package simpledb
 //@        arg0 == absWritePath && arg1 == absReplacementPath
 //@   call 2 of os.RemoveAll: assert [C10,C02:inputs-removed-after-the-merged-table-is-in-place] called(os.Rename, 0) && callres(os.Rename, 0, 0) == nil &&
 //@        sstablePath != meta.ReplacementPath
-//@   // (the inputs are removed in list order, oldest first: the loop is a range loop over meta.SstablePaths; `iter` below only
-//@   //  resolves for a range loop, the element-wise statement needs the allocation order of objects created during Walk)
-//@   call 2 of os.RemoveAll: assert [C10:inputs-removed-in-list-order] 0 < iter
+//@   // (the inputs are removed in list order, oldest first: the innermost range loop around the removal runs over
+//@   //  meta.SstablePaths - `ranged` is the slice that loop ranges over, `iter` its iteration number)
+//@   call 2 of os.RemoveAll: assert [C10:inputs-removed-in-list-order] 0 < iter && ranged === meta.SstablePaths
 //@   modifies nothing
 //@   exit [C10:errors-fail-the-open] (called(os.RemoveAll, 0) && callres(os.RemoveAll, 0, 0) != nil) || (called(os.RemoveAll, 1) && callres(os.RemoveAll, 1, 0) != nil) ||
 //@        (called(os.Rename, 0) && callres(os.Rename, 0, 0) != nil) || (called(os.RemoveAll, 2) && callres(os.RemoveAll, 2, 0) != nil) ==> r0 != nil
